@@ -171,6 +171,27 @@ fn main() {
             replay::source(&a(2), &text, &mut w, &mut out);
             w.finish();
         }
+        "replay-report" => {
+            // replay-report <case.json> <k> <trace>
+            let case: serde_json::Value = serde_json::from_str(&std::fs::read_to_string(a(2)).expect("read")).expect("json");
+            let mut w = NdjsonWriter::new(&a(4));
+            report::replay_case(&case, a(3).parse().unwrap_or(8), &mut w, &mut out);
+            w.finish();
+        }
+        "replay-dir" => {
+            // replay-dir <case.json> <corpus> <scratch> <trace>
+            let case: serde_json::Value = serde_json::from_str(&std::fs::read_to_string(a(2)).expect("read")).expect("json");
+            let mut w = NdjsonWriter::new(&a(5));
+            dirs::replay_case(&case, &a(3), &a(4), &mut w, &mut out);
+            w.finish();
+        }
+        "replay-layout" => {
+            // replay-layout <case.json> <trace>
+            let case: serde_json::Value = serde_json::from_str(&std::fs::read_to_string(a(2)).expect("read")).expect("json");
+            let mut w = NdjsonWriter::new(&a(3));
+            layout::replay_case(&case, &mut w, &mut out);
+            w.finish();
+        }
         "replay-call" => {
             let case: serde_json::Value = serde_json::from_str(&std::fs::read_to_string(a(2)).expect("read")).expect("json");
             replay::call(&case, &mut out);
